@@ -272,6 +272,44 @@ def check_c09(exe, tier, seed, verdict):
             verdict.violation("C09:int:crash", {"kind": "literal", "text": lit_text(*l), "crash": (out or {}).get("crash")}, "integer getter crashed on %r" % lit_text(*l))
             continue
         events += int_events(lit_text(*l), l[0], l[1], l[2], out["ev"])
+    # state left behind by an earlier call must not matter: every getter on well-formed literals DIRECTLY AFTER a call that
+    # fails or overflows in some other way (a missing file, an out-of-range literal of another type, an overflowing or
+    # subnormal decimal literal for the floating getters)
+    good = [("", 10, [0]), ("", 10, [7]), ("-", 10, [5]), ("", 10, [2, 1, 4, 7, 4, 8, 3, 6, 4, 7]), ("", 16, [1, 0]), ("", 8, [1, 7])]
+    poison = ["readfile 9 %s x3d x23" % hx(ROOT + "/stale/none.conf"),
+              "get UInt64 1 - %s" % hx("huge"), "get Int64 1 - %s" % hx("huge"), "get Int 1 - %s" % hx("huge"), "get UInt 1 - %s" % hx("neg"),
+              "get Double 1 - %s" % hx("ovf"), "get Float 1 - %s" % hx("ovf"), "get Double 1 - %s" % hx("sub"), "get Bool 1 - %s" % hx("huge"),
+              "get Int 1 - %s" % hx("nokey"), "merge 8 1 7"]
+    sc = ["newkf 1 x3d x23", "set String 1 - %s %s" % (hx("huge"), hx("99999999999999999999999999")), "set String 1 - %s %s" % (hx("neg"), hx("-1")),
+          "set String 1 - %s %s" % (hx("ovf"), hx("1e999")), "set String 1 - %s %s" % (hx("sub"), hx("4.9e-324"))]
+    for gi, g in enumerate(good):
+        sc.append("set String 1 - %s %s" % (hx("g%d" % gi), hx(lit_text(*g))))
+    plan = []
+    for pz in poison:
+        for gi, g in enumerate(good):
+            for T in ITYPES:
+                sc += [pz, "get %s 1 - %s" % (T, hx("g%d" % gi))]
+                plan.append((g, T))
+    sc.append("free 1")
+    out = core.run_cases(exe, [("stale", sc)], jobs=1, per_case_timeout=120)["stale"]
+    if out["crash"]:
+        verdict.violation("C09:stale:crash", {"kind": "script", "crash": out["crash"]}, "getter sequence crashed\n" + out["crash"][:700])
+    else:
+        # every second get event of the loop part is a target (the poison calls that are getters print events too)
+        evs = [e for e in out["ev"] if e["op"] == "get" and e.get("T") in ITYPES]
+        tg = [e for e in out["ev"] if e["op"] == "get"]
+        # walk the script again to pick the target events
+        it = iter([e for e in out["ev"] if e["op"] in ("get", "readfile", "merge")])
+        seq = [l for l in sc if l.split()[0] in ("get", "readfile", "merge")]
+        k = 0
+        for j, (l, e) in enumerate(zip(seq, it)):
+            if j % 2 == 1 and k < len(plan):
+                g, T = plan[k]
+                k += 1
+                v = e["out"]
+                okk = e["rc"] == "ECONF_SUCCESS"
+                events.append({"e": "int", "T": T, "sign": g[0], "base": g[1], "digits": g[2], "rc": e["rc"], "neg": bool(okk and v < 0),
+                               "mag": digits_of(abs(v), g[1]) if okk else [0], "isdef": False, "text": lit_text(*g) + " (after `%s`)" % " ".join(seq[j - 1].split()[:2])})
     # keys without value: parsed file with a bare key and with 'k=' ; every typed getter
     s = ["file %s %s" % (hx(ROOT + "/nv/f.conf"), hx("bare\nempty=\n[S]\nbare2\n")), "readfile 1 %s x3d x23" % hx(ROOT + "/nv/f.conf")]
     for T in ITYPES + ["Float", "Double", "Bool", "String"]:
@@ -341,7 +379,7 @@ def check_c09(exe, tier, seed, verdict):
     fok, fn = check_floats(exe, rnd, 1500 if tier == "quick" else 100000, verdict)
     cov = {"states": r.distinct, "transitions": r.generated, "traces_validated_against_impl": n_fwd + acc,
            "evaluations": len(recs) * 8 + len(events) + fn + nsweep, "distinct_nontrivial": nn + sum(1 for l in lits if len(l[2]) >= 9),
-           "rule": "MC_Typed: %d literals = sign {none,+,-} x base {8,10,16} x magnitudes {0, 1, 2^31+-3, 2^32+-3, 2^63+-3, 2^64+-3, 2^33..2^65}; each read by the 4 integer getters and their Def variants and compared with IntMeaning (digit-wise comparison with limits tied to the doubling relation). Trace_Typed: %d random literals of 1..25 digits x 8 getter calls, typed getters on keys without value (bare key, 'k=', in a section), %d boolean texts (random ones and the neighbourhood of the six words: every one-character extension in front and behind, substitutions, deletions, concatenations, in several letter cases), and the exhaustive boolean sweep over all %d strings of length <= %d over the alphabet %r (every letter of the six words in both cases, the djb2 neighbours p - g @, blank). Floating getters: %d decimal literals (long fractions, exponents, float32 midpoints) against exact rational arithmetic (python Fraction; binary64 by CPython's correctly rounded float()). non-trivial = within 3 of a limit of the queried type or outside its range; random literal with >= 9 digits." % (
+           "rule": "MC_Typed: %d literals = sign {none,+,-} x base {8,10,16} x magnitudes {0, 1, 2^31+-3, 2^32+-3, 2^63+-3, 2^64+-3, 2^33..2^65}; each read by the 4 integer getters and their Def variants and compared with IntMeaning (digit-wise comparison with limits tied to the doubling relation). Trace_Typed: %d random literals of 1..25 digits x 8 getter calls, every integer getter on well-formed literals directly after a failing / overflowing call of another kind (state left behind must not matter), typed getters on keys without value (bare key, 'k=', in a section), %d boolean texts (random ones and the neighbourhood of the six words: every one-character extension in front and behind, substitutions, deletions, concatenations, in several letter cases), and the exhaustive boolean sweep over all %d strings of length <= %d over the alphabet %r (every letter of the six words in both cases, the djb2 neighbours p - g @, blank). Floating getters: %d decimal literals (long fractions, exponents, float32 midpoints) against exact rational arithmetic (python Fraction; binary64 by CPython's correctly rounded float()). non-trivial = within 3 of a limit of the queried type or outside its range; random literal with >= 9 digits." % (
                len(recs), len(lits), len(btexts), nsweep, maxlen, ALPHA, fn),
            "samples": [{"text": core.uncodes(recs[100]["text"]), "expect": recs[100]["exp"]}], "exhaustive": True,
            "float_literals_ok": fok, "trusted_base": ["TLC 1.8.0", "gcc ASan/UBSan", "drv.c", "CPython Fraction/float for the floating sub-claim"]}
@@ -409,6 +447,16 @@ def check_c08(exe, tier, seed, verdict):
         fr = rv[:400 if tier == "quick" else 20000]
         for j in range(0, len(fr), 1000):
             add("%s-rndf-%d" % (T, j), ["rtlist %s file %s %s" % (T, hx(d), " ".join("%x" % v for v in fr[j:j + 1000]))], len(fr[j:j + 1000]))
+        # ... and with the values spread over keys of three sections used alternately plus group-less keys (a setter must reach
+        # the key it was called for wherever that key sits among the entries)
+        mv = (bv[:150] + rv[:150]) if tier == "quick" else (bv[:1500] + rv[:1500])
+        for j in range(0, len(mv), 300):
+            add("%s-matrix-%d" % (T, j), ["rtmatrix %s direct %s %s" % (T, hx(d), " ".join("%x" % v for v in mv[j:j + 300]))], len(mv[j:j + 300]))
+            add("%s-matrixf-%d" % (T, j), ["rtmatrix %s file %s %s" % (T, hx(d), " ".join("%x" % v for v in mv[j:j + 300]))], len(mv[j:j + 300]))
+    add("Bool-matrix", ["rtmatrix Bool direct %s %s" % (hx(d), " ".join("%x" % rnd.getrandbits(1) for _ in range(90)))], 90)
+    add("Bool-matrixf", ["rtmatrix Bool file %s %s" % (hx(d), " ".join("%x" % rnd.getrandbits(1) for _ in range(90)))], 90)
+    if True:
+        pass
     res = core.run_cases(pl, cases, per_case_timeout=3000)
     events = []
     total = 0
@@ -452,7 +500,7 @@ def check_c08(exe, tier, seed, verdict):
     exhaustive = tier == "thorough"
     cov = {"evaluations": total + len(words) * 2, "distinct_nontrivial": sum(len(boundary_values(T)) for T in ("Int", "UInt", "Float", "Int64", "UInt64", "Double")) + len(words),
            "rule": ("exhaustive sweep of all 2^32 values of int32, uint32 and float (set + get, compared bit for bit, NaN as NaN)" if exhaustive else "strided sweep (step 4099) of the 2^32 values of int32, uint32, float + dense windows around 0, 2^31 and 2^32-1") +
-                   "; via econf_writeFile + econf_readFile for the window around 2^31 and for all boundary values; for all six numeric types: every single-bit value +-1, every power of ten +-1, the type limits, non-finite / subnormal / largest floats, and a pseudo-random sample; all %d case variants of the boolean words through setBool/getBool directly and via file. Summary events (type, mode, count, mismatches) validated by Trace_Typed (bad = 0, count as requested). non-trivial = boundary / single-bit / power-of-ten neighbour / special float / mixed-case spelling." % len(words),
+                   "; via econf_writeFile + econf_readFile for the window around 2^31 and for all boundary values; for all six numeric types: every single-bit value +-1, every power of ten +-1, the type limits, non-finite / subnormal / largest floats, and a pseudo-random sample; the same values spread over keys of three alternately used sections and group-less keys (rtmatrix: set all, then get all, directly and via file); all %d case variants of the boolean words through setBool/getBool directly and via file. Summary events (type, mode, count, mismatches) validated by Trace_Typed (bad = 0, count as requested). non-trivial = boundary / single-bit / power-of-ten neighbour / special float / mixed-case spelling." % len(words),
            "samples": [events[0], events[-1]] if events else [], "exhaustive": exhaustive, "values_round_tripped": total, "boolean_spellings_ok": nb,
            "states": r.distinct, "trusted_base": ["gcc -O2 build of the driver for the sweeps", "TLC 1.8.0 (summary events, model lemma RoundTrip)"]}
     return cov, "exploration"
